@@ -71,6 +71,14 @@ Theorem C05_polyhedron_chain_sum_is_piercing_count_partial :
 Proof. exact chain_sum_is_piercing_count. Qed.
 Print Assumptions C05_polyhedron_chain_sum_is_piercing_count_partial.
 
+(* the hypothesis is satisfiable: a face of the unit tetrahedron seen from an interior point *)
+Example C05_generic_position_example :
+  generic_tri3 (1/5, 3/10, 1/10)%R ((1, 0, 0), (0, 1, 0), (0, 0, 1))%R.
+Proof.
+  unfold generic_tri3, off_seg, cr, dt, xy, ta, tb, tc, vsub, vx, vy. cbn [fst snd osub Rops].
+  repeat split; try lra; intros [H1 H2]; lra.
+Qed.
+
 Theorem C05_polyhedron_transfer :
   forall p TT, inside_polyhedron Qops p TT = inside_polyhedron Rops (Q2R3 p) (map Q2Rt TT).
 Proof. exact inside_polyhedron_transfer. Qed.
